@@ -356,6 +356,8 @@ def body_factory(tier, seed):
         rep.coverage["class_path_evaluations"] = n_cls
         endpoint_first(rep)
         ambient_contexts(rep)
+        from harness.props import c04
+        c04.cold_orders(rep, PROP)
         total = sum(per.values()) + n_cls
         rep.coverage["evaluations"] += total
         rep.coverage["sweep_per_position"] = {"/".join([POSITIONS[i][1]] + [str(x) for x in POSITIONS[i][2]]): per[i] for i in per}
@@ -389,6 +391,9 @@ def run(rep, tier, seed):
 
 
 def replay(d):
+    if d.get("kind") == "cold-order":
+        from harness.props import c04
+        return c04.replay_cold(d)
     mtype, action, path, x = d["mtype"], d["action"], tuple(d["path"]), d["value"]
     if d.get("kind") == "ambient-context":
         v = judge_public(mtype, action, path, base_payload(mtype, action), x, d["async_validation"], AMBIENT[d["context"]])
